@@ -96,14 +96,16 @@ func C07(ctx *core.Ctx) int {
 			// (a) the toolchain accepts the emitted files
 			if cc.T.Stage == "build" {
 				note(pc, l, "does not build")
-				ctx.Report(fmt.Sprintf("%s|emitted code rejected by the target toolchain|%s", l, buildSig(l, cc.T.BuildLog)),
+				ctx.Report(fmt.Sprintf("%s|emitted code rejected by the target toolchain|%s|%s", l, buildSig(l, cc.T.BuildLog), progClass(pc.Prog.Name)),
 					fmt.Sprintf("program %s (%s)\n%s\n--- DSL\n%s", pc.Prog.Name, l, core.Trunc(cc.T.BuildLog, 1500), core.Trunc(pc.Text, 600)), rep)
 				continue
 			}
 			if cc.T.Stage != "" {
 				note(pc, l, cc.T.Stage)
 				if cc.T.Stage == "driver" {
-					core.HarnessError("driver for %s / %s does not build although the emitted code does:\n%s", pc.Prog.Name, l, core.Trunc(cc.T.BuildLog, 3000))
+					// the emitted code builds but the harness's driver for it does not: a limitation of the harness, never a verdict
+					st.blockers[l+": HARNESS driver does not build: "+buildSig(l, cc.T.BuildLog)]++
+					continue
 				}
 				ctx.Report(fmt.Sprintf("%s|emitted code dies when exercised|%s|%s", l, buildSig(l, cc.T.BuildLog), progClass(pc.Prog.Name)),
 					fmt.Sprintf("program %s (%s)\n%s", pc.Prog.Name, l, core.Trunc(cc.T.BuildLog, 1500)), rep)
@@ -117,6 +119,11 @@ func C07(ctx *core.Ctx) int {
 				if o.Kind == "ERR" && o.ErrKind == "unsupported" && !seen[o.ErrText] {
 					seen[o.ErrText] = true
 					f := strings.Fields(o.ErrText)
+					if l == "go" && len(f) >= 2 && f[0] == "notype" && f[1] != "" && !(f[1][0] >= 'A' && f[1][0] <= 'Z') {
+						// an unexported Go type exists but cannot be named from the driver's package: not observable, not a verdict
+						st.blockers["go: packet type is unexported (lower-case DSL name), driver cannot reach it"]++
+						continue
+					}
 					what := "?"
 					if len(f) >= 2 {
 						what = declKind(pc.R, f[0], f[1])
@@ -329,7 +336,7 @@ func C17(ctx *core.Ctx) int {
 			ctx.Report(fmt.Sprintf("%s|no emitted test ran|%s", c.lang, buildSig(c.lang, c.t.TestLog)),
 				fmt.Sprintf("program %s (%s)\n%s", c.p.Name, c.lang, core.Trunc(c.t.TestLog, 1200)), rep)
 		default:
-			ctx.Report(fmt.Sprintf("%s|emitted self-test does not build or fails|%s", c.lang, testSig(c.lang, c.t.TestLog)),
+			ctx.Report(fmt.Sprintf("%s|emitted self-test does not build or fails|%s|%s", c.lang, testSig(c.lang, c.t.TestLog), progClass(c.p.Name)),
 				fmt.Sprintf("program %s (%s)\n%s\n--- DSL\n%s", c.p.Name, c.lang, core.Trunc(c.t.TestLog, 1500), core.Trunc(c.text, 600)), rep)
 		}
 	}
